@@ -238,7 +238,12 @@ def gen(rng, force=None):
                 k = rng.randint(1, k)
             if k:
                 meta["sequencer"] = True
-                bl.append({"component": "Seq", "bindings": [{"rank": r} for r in rng.sample(loop, k)]})
+                picked = rng.sample(loop, k)
+                if part_rank is not None and rng.random() < 0.5:
+                    # the binding written against the Einsum's own rank name although the mapping partitions it
+                    picked = list(dict.fromkeys(part_rank if r in (part_rank + "1", part_rank + "0") else r for r in picked))
+                    meta["sequencer_on_partitioned_root"] = True
+                bl.append({"component": "Seq", "bindings": [{"rank": r} for r in picked]})
         shared = [r for r in loop if sum(1 for x in ins if r in final(decl[x])) >= 2]
         used_ranks = set()
         for i, ty in enumerate(isect_types):
@@ -261,4 +266,66 @@ def gen(rng, force=None):
             bl.append({"component": "Add", "bindings": [{"op": "add"}]})
         spec["bindings"][out] = bl
     meta["loops"] = loops
+    return json.dumps(spec, indent=1), meta
+
+
+def gen_sigma(rng):
+    """SIGMA-style mappings: K shape-split, (M, K0) flattened, optionally MK0 occupancy-split; B (not part of the
+    flattening) is read through getPayload() on K0.  Buffer bindings on B's ranks incl. K0 (lazy/eager, coord/payload)."""
+    ksz = rng.choice([2, 4, 128])
+    occ = rng.random() < 0.6
+    part = {"K": ["uniform_shape(%d)" % ksz], "(M, K0)": ["flatten()"]}
+    if occ:
+        part["MK0"] = ["uniform_occupancy(A.%d)" % rng.choice([2, 4, 16384])]
+        inner = ["MK01", "MK00"]
+    else:
+        inner = ["MK0"]
+    loop = ["K1"] + inner
+    loop.insert(rng.randint(2 if occ else 2, len(loop)), "N")
+    space = [loop[-1]] if rng.random() < 0.6 else []
+    border = rng.choice([["K1", "N", "K0"], ["K1", "K0", "N"]])
+    fmtB = {"rank-order": border}
+    for r in border:
+        d = {"format": rng.choice(["U", "C"])}
+        if rng.random() < 0.8:
+            d["pbits"] = rng.choice([32, 64])
+        if d["format"] == "C" and rng.random() < 0.8:
+            d["cbits"] = 32
+        fmtB[r] = d
+    n_pe = rng.choice([1, 8, 128])
+    spec = {"einsum": {"declaration": {"A": ["K", "M"], "B": ["K", "N"], "Z": ["M", "N"]}, "expressions": ["Z[m, n] = A[k, m] * B[k, n]"]},
+            "mapping": {"rank-order": {"A": ["K", "M"], "B": ["K", "N"], "Z": ["M", "N"]}, "partitioning": {"Z": part},
+                        "loop-order": {"Z": loop}, "spacetime": {"Z": {"space": space, "time": [r for r in loop if r not in space]}}},
+            "format": {"B": {"partitioned": fmtB}},
+            "architecture": {"Accelerator": [{"name": "System", "attributes": {"clock_frequency": 1000},
+                                              "local": [{"name": "MainMemory", "class": "DRAM", "attributes": {"bandwidth": 4096}}],
+                                              "subtree": [{"name": "PE" if n_pe == 1 else "PE[0..%d]" % (n_pe - 1),
+                                                           "local": [{"name": "RegFile", "class": "Buffet", "attributes": {"width": 32, "depth": 256}},
+                                                                     {"name": "Multiplier", "class": "Compute", "attributes": {"type": "mul"}}]}]}]},
+            "bindings": {}}
+    mem, buf = [], []
+    for r in border:
+        for ty in ("coord", "payload"):
+            if ty == "coord" and "cbits" not in fmtB[r]:
+                continue
+            if ty == "payload" and "pbits" not in fmtB[r]:
+                continue
+            if rng.random() < 0.75:
+                mem.append({"tensor": "B", "rank": r, "type": ty, "format": "partitioned"})
+                if rng.random() < 0.7:
+                    above = loop[:loop.index(r)] if r in loop else [x for x in loop if x != loop[-1]]
+                    b = {"tensor": "B", "rank": r, "type": ty, "format": "partitioned",
+                         "evict-on": rng.choice(above + ["root"]) if above else "root"}
+                    if rng.random() < 0.7:
+                        b["style"] = "lazy"
+                    buf.append(b)
+    bl = [{"config": "Accelerator", "prefix": "tmp/sigma"}]
+    if mem:
+        bl.append({"component": "MainMemory", "bindings": mem})
+    if buf:
+        bl.append({"component": "RegFile", "bindings": buf})
+    bl.append({"component": "Multiplier", "bindings": [{"op": "mul"}]})
+    spec["bindings"]["Z"] = bl
+    meta = {"template": "sigma-like", "einsums": 1, "intersector": [], "eager": 0, "lazy": len(buf), "cache": False, "sequencer": False,
+            "partitioned": True, "two_formats": 0, "discordant_format": 0, "elem": 0, "loops": {"Z": loop}}
     return json.dumps(spec, indent=1), meta
